@@ -9,7 +9,7 @@ import Mistune.PolyExceptions
 namespace Mistune
 open Mistune.Generated
 
-def allRx : List (String × Rx) := namedRx ++ (allCfgs.map (fun c => c.blockSpec ++ c.inlineSpec)).flatten
+def allRx : List (String × Rx) := namedRx ++ directiveRx ++ (allCfgs.map (fun c => c.blockSpec ++ c.inlineSpec)).flatten
 
 def polyOk (r : Rx) : Bool := r.polySafe pyCats || polyExceptions.any (fun e => decide (e = r))
 
